@@ -214,4 +214,49 @@ theorem c11_none_only_after_a_status_check (pid : Nat) (det : Bool) (d : Nat) (r
       exact ⟨_ ++ pre, po, w, now, t0, by rw [hl, List.append_assoc], hne, hle⟩
     | _ => simp at h
 
+/-! ### Naps stay inside the remaining time; lateness does not accumulate -/
+
+theorem wtLoop_log_head (pid : Nat) (det : Bool) (dl delay : Nat) (rs : List Resp) :
+    ∃ r tl, (wtLoop pid det dl delay rs).log = (.waitpid pid true, r) :: tl := by
+  unfold wtLoop
+  (repeat' split) <;> simp [Out.pre]
+
+/-- **C11 (every nap fits into the time that is left).**  Each sleep of `wait_timeout(d)` directly follows a clock
+    reading `now` that is still before the deadline `t0 + d`, is longer than zero (no zero-length naps: the loop does
+    not spin near the deadline) and is at most `t0 + d - now`: the call never plans to sleep past its deadline, whatever
+    the deadline is (milliseconds or months away -- the arithmetic is over unbounded naturals here; the clamp
+    `min(delay, remaining)` of the code is what the correspondence runs check with far deadlines). -/
+theorem c11_naps_within_remaining (pid : Nat) (det : Bool) (d t0 : Nat) (rs : List Resp) :
+    NapsOK (t0 + d) (runOp (.waitTimeout d) ⟨.running pid, det⟩ (.time t0 :: rs)).log := by
+  simp only [runOp, waitTimeout, Out.pre]
+  obtain ⟨r, tl, h⟩ := wtLoop_log_head pid det (t0 + d) (1 * ms) rs
+  have := wtLoop_naps pid det (t0 + d) (1 * ms) rs (by simp [ms])
+  rw [h] at this ⊢
+  simpa [NapsOK] using this
+
+/-- **C11 (accuracy: lateness does not accumulate).**  If every clock reading comes at most `J` after the previous
+    reading plus the naps taken since (`J` = the latency of one round: scheduling, oversleeping of one nap, the status
+    check), then *every* reading `wait_timeout(d)` takes -- the last one, after which it answers "still running",
+    included -- is at most `J` past the deadline: the error is one round's latency, not the sum over the rounds.
+    Together with `c11_not_early`: "still running" is answered at a time in `[t0 + d, t0 + d + J]`. -/
+theorem c11_not_late (pid : Nat) (det : Bool) (d t0 J : Nat) (rs : List Resp)
+    (hub : ClockUB J t0 (runOp (.waitTimeout d) ⟨.running pid, det⟩ (.time t0 :: rs)).log) :
+    ∀ t, (Call.clock, Resp.time t) ∈ (runOp (.waitTimeout d) ⟨.running pid, det⟩ (.time t0 :: rs)).log →
+      t ≤ t0 + d + J := by
+  simp only [runOp, waitTimeout, Out.pre] at hub ⊢
+  intro t ht
+  simp only [List.cons_append, List.nil_append, ClockUB] at hub
+  simp only [List.cons_append, List.nil_append, List.mem_cons, Prod.mk.injEq, Resp.time.injEq, true_and] at ht
+  rcases ht with rfl | ht
+  · omega
+  · exact wtLoop_readings pid det (t0 + d) (1 * ms) J rs (by simp [ms]) t0 (by omega) hub.2 t ht
+
+/-- non-vacuity (a test, labelled as a test): a run with two naps whose clock obeys the latency bound `J = 5 ms` -/
+example : ClockUB (5 * ms) 0 (runOp (.waitTimeout (3 * ms)) ⟨.running 7, false⟩
+      [.time 0, .wp 0 0, .time (1 * ms), .ok, .wp 0 0, .time (2 * ms + 2), .ok, .wp 0 0, .time (3 * ms + 9)]).log ∧
+    (runOp (.waitTimeout (3 * ms)) ⟨.running 7, false⟩
+      [.time 0, .wp 0 0, .time (1 * ms), .ok, .wp 0 0, .time (2 * ms + 2), .ok, .wp 0 0, .time (3 * ms + 9)]).ret = .none := by
+  refine ⟨?_, by decide⟩
+  simp [runOp, waitTimeout, wtLoop, Out.pre, ClockUB, ms]
+
 end Life
